@@ -212,8 +212,8 @@ pub fn def() -> PropDef {
         rule: "u from the field-element generator plus 0, +-1 and (G1) the SSWU-exceptional roots +-sqrt(-1/11); pairs (u0, u1): independent, u1 = u0, u1 = -u0, and partners constructed by the model (solving two quadratics for Z u'^2) with u1 not in {+-u0} and sswu(u1) = sswu(u0) resp. = -sswu(u0). Oracle: model clear_cofactor(iso(sswu(u))) and clear_cofactor(iso(sswu(u0)) + iso(sswu(u1))) with + the model law on the target curve; model subgroup test; no panic. Non-trivial = pair with coinciding or inverse SSWU images; distinct = distinct cases",
         needs_pairing: false,
         subs: vec![
-            Box::new(Sub { name: "g1", rule: "G1 map_to_curve and map2_to_curve vs model composition", quick: 1500, thorough: 50_000, strategy: || boxed(map_case_strategy(0)), check: check_map }),
-            Box::new(Sub { name: "g2", rule: "G2 map_to_curve and map2_to_curve vs model composition", quick: 400, thorough: 12_000, strategy: || boxed(map_case_strategy(1)), check: check_map }),
+            Box::new(Sub { name: "g1", rule: "G1 map_to_curve and map2_to_curve vs model composition", quick: 3_750, thorough: 50_000, strategy: || boxed(map_case_strategy(0)), check: check_map }),
+            Box::new(Sub { name: "g2", rule: "G2 map_to_curve and map2_to_curve vs model composition", quick: 1_000, thorough: 12_000, strategy: || boxed(map_case_strategy(1)), check: check_map }),
         ],
         assumptions: COMMON_ASSUMPTIONS.to_vec(),
     }
